@@ -1,6 +1,2 @@
 import AGV.Util.Judge
 import AGV.Util.Sexp
-import AGV.Model.Pos
-import AGV.Spec.Pos
-import AGV.Lemmas.Pos
-import AGV.Props.C14
